@@ -293,6 +293,9 @@ func c20Lifecycle(chk *fw.Check) int {
 							if open := vleveldb.OpenPaths(); len(open) > 0 {
 								chk.Violation("C20|database-handle-open-after-cleanup|"+sig, fmt.Sprintf("cycle %d: %d database handle(s) still open after Cleanup: %v", cycle, len(open), open), nil)
 							}
+							if net.Unclosed > 0 {
+								chk.Violation("C20|response-body-never-closed|"+sig, fmt.Sprintf("cycle %d: %d answer(s) of the origin were never closed by the validator", cycle, net.Unclosed), nil)
+							}
 							_, tmps, other := ListDir(dir)
 							if len(tmps) > 0 || len(other) > 0 {
 								chk.Violation("C20|residue-after-cleanup|"+sig, fmt.Sprintf("cycle %d: work_dir holds %v %v after Cleanup", cycle, tmps, other), nil)
@@ -395,7 +398,7 @@ func c20Special(chk *fw.Check) int {
 		}
 		// (3) an entry which never got loaded (its distribution point serves garbage / is down / a fetch is still pending in
 		// fetch_background) is released by Cleanup like any other
-		for _, kind := range []string{"garbage", "down", "background-pending", "bad-signature", "unknown-signer", "cut-off-after-the-entries", "bad-signature-in-the-background"} {
+		for _, kind := range []string{"garbage", "down", "background-pending", "bad-signature", "unknown-signer", "cut-off-after-the-entries", "bad-signature-in-the-background", "http-503", "http-404"} {
 			n++
 			kind := kind
 			sig := fmt.Sprintf("backend=%s never-loaded-entry=%s", be(disk), kind)
@@ -417,6 +420,10 @@ func c20Special(chk *fw.Check) int {
 						net.Serve(urlA, "unknown-signer", us.DER())
 					case "cut-off-after-the-entries":
 						net.Serve(urlA, "cut", v1[:len(v1)-20])
+					case "http-503":
+						net.Routes[urlA] = &world.Behaviour{Label: "503", Status: 503, Body: []byte("<html>503 service unavailable</html>")}
+					case "http-404":
+						net.Routes[urlA] = &world.Behaviour{Label: "404", Status: 404, Body: []byte("<html>404 not found</html>")}
 					case "garbage":
 						net.Serve(urlA, "garbage", []byte("<html>503 service unavailable</html>"))
 					case "down":
@@ -460,6 +467,10 @@ func c20Special(chk *fw.Check) int {
 					vsched.Drain()
 					if open := vleveldb.OpenPaths(); len(open) > 0 {
 						chk.Violation("C20|database-handle-open-after-cleanup|"+sig, fmt.Sprintf("cycle %d: %d database handle(s) still open after Cleanup: %v", cycle, len(open), open), nil)
+						return
+					}
+					if net.Unclosed > 0 {
+						chk.Violation("C20|response-body-never-closed|"+sig, fmt.Sprintf("cycle %d: %d answer(s) of the origin were never closed by the validator (each keeps a connection for good)", cycle, net.Unclosed), nil)
 						return
 					}
 					if _, tmps, other := ListDir(dir); len(tmps) > 0 || len(other) > 0 {
